@@ -1,5 +1,6 @@
 import JunoModel.C03.ProofsNode
 import JunoModel.C03.ProofsLegacy
+import JunoModel.C03.ProofsSys
 /-!
 C03 — property theorems (statements only; helper lemmas are in `Proofs*.lean`).
 
@@ -72,10 +73,26 @@ theorem new_head_read_correct (cfg : Cfg) (ops : List Op) (nd : Node NState)
 the legacy backend):
     (absAt nd.chain n).stor a k ≠ 0 → nd.read (newBackend cfg) (.num n) (.storage a k) = some (.ok …)
 It is FALSE for the code as found (`cfg.sysProbeFix = false`): `new_system_asFound_counterexample`.
-Proved below: never a wrong value (every variant), and the full statement for the variant with
-proposed-fixes/C03-history-system-contract-no-deploy-probe.diff. Missing for the code as found: the
-full statement under the hypothesis that no block of the history empties the storage of a system
-contract (then `commit` never deletes a record that older blocks need). -/
+Proved: never a wrong value, every variant, and the full statement for the variant with
+proposed-fixes/C03-history-system-contract-no-deploy-probe.diff (`new_system_storage_read_partial`);
+the full statement for EVERY variant under the hypothesis that excludes the defect — no block of the
+history empties the storage of a system contract (`new_system_storage_read_nodrain_partial`). -/
+
+/-- NEW BACKEND as found, system contracts: if no stored block of the history (reverted ones
+included) leaves a system contract with an empty storage that was not empty before (`NoDrainStep`),
+a slot of 0x1/0x2 that is non-zero after block `n` is returned as it is by the view of block `n`. -/
+theorem new_system_storage_read_nodrain_partial (cfg : Cfg) (ops : List Op) (nd : Node NState)
+    (hrun : run (newBackend cfg) (Node.init (newBackend cfg)) ops = some nd)
+    (hok : OpsOK (fun ch d => d.WF ∧ NoDrainStep ch d) ops [])
+    (n : Nat) (hn : n < nd.blocks.length) (a : Addr) (k : Slot) (ha : isSystem a = true)
+    (hnz : (absAt nd.chain n).stor a k ≠ 0) :
+    nd.read (newBackend cfg) (.num n) (.storage a k) = some (.ok ((absAt nd.chain n).stor a k)) := by
+  have hs := run_invariant' (newBackend cfg) (NSys cfg) (fun ch d => d.WF ∧ NoDrainStep ch d)
+    (fun ch s s' d hI hP hu => nsys_store cfg ch s s' d hI hP hu)
+    (fun d rest s s' hI hr => nsys_revert cfg d rest s s' hI hr)
+    ops (Node.init (newBackend cfg)) nd (nsys_init cfg) hok hrun
+  simp only [Node.read, Node.resolve, hn, if_true]
+  exact congrArg some (nsys_histRead cfg nd.chain nd.st hs n a k ha hnz)
 
 /-- NEW BACKEND, system contracts 0x1/0x2, views by number: a storage read never returns a wrong
 value (it is the value the diffs give, or not-found), in every variant; in the variant without the
@@ -245,6 +262,19 @@ example : OpsWF exampleHistory := by
   apply Diff.wfb_sound
   simp only [exampleHistory, List.mem_cons, List.not_mem_nil, or_false, Op.store.injEq, reduceCtorEq, false_or] at hm
   rcases hm with h | h | h | h <;> (obtain ⟨_, rfl⟩ := h; decide)
+
+/-- … and the no-drain hypothesis (block 3 writes to the system contract 0x1 and leaves it non-empty) -/
+example : OpsOK (fun ch d => d.WF ∧ NoDrainStep ch d) exampleHistory [] := by
+  have noSysKeys : ∀ (ch : List Diff) (d : Diff), (∀ a ∈ d.storage.map (·.1), isSystem a = false) → NoDrainStep ch d := by
+    intro ch d h a ha hk _
+    rw [h a hk] at ha; cases ha
+  simp only [exampleHistory, OpsOK, List.tail_cons, and_true]
+  refine ⟨⟨Diff.wfb_sound _ (by decide), noSysKeys _ _ (by decide)⟩, ⟨Diff.wfb_sound _ (by decide), noSysKeys _ _ (by decide)⟩,
+    ⟨Diff.wfb_sound _ (by decide), ?_⟩, ⟨Diff.wfb_sound _ (by decide), noSysKeys _ _ (by decide)⟩⟩
+  intro a _ _ _
+  simp only [List.map_cons, List.map_nil, List.mem_singleton] at *
+  subst_vars
+  exact ⟨7, by decide⟩
 
 example : (run (newBackend Cfg.repaired) (Node.init (newBackend Cfg.repaired)) exampleHistory).map
     (fun nd => (nd.blocks.length,
